@@ -124,29 +124,39 @@ func (c *MJBodyComponent) Render(w io.StringWriter) error {
 		return 0
 	}
 
+	// Each block is rendered on its own and written once the next one is known: where one block
+	// ends with "<![endif]-->" and the next begins with "<!--[if mso | IE]>", both markers are
+	// dropped, as MJML's mergeOutlookConditionnals does for adjacent Outlook conditionals.
+	const msoEndif, msoIf = "<![endif]-->", "<!--[if mso | IE]>"
+	var block strings.Builder
+	held := ""
 	for i, child := range c.Children {
-		switch comp := child.(type) {
-		case *MJSectionComponent:
+		switch child.(type) {
+		case *MJSectionComponent, *MJWrapperComponent:
 			if c.RenderOpts != nil {
 				c.RenderOpts.RemainingBodySections = continuesMSOComment(i)
 			}
-			if err := comp.Render(w); err != nil {
-				return err
-			}
-			continue
-		case *MJWrapperComponent:
-			if c.RenderOpts != nil {
-				c.RenderOpts.RemainingBodySections = continuesMSOComment(i)
-			}
-			if err := comp.Render(w); err != nil {
-				return err
-			}
-			continue
 		}
 
-		if err := child.Render(w); err != nil {
+		block.Reset()
+		if err := child.Render(&block); err != nil {
 			return err
 		}
+		out := block.String()
+		if out == "" {
+			continue
+		}
+		if strings.HasSuffix(held, msoEndif) && strings.HasPrefix(out, msoIf) {
+			held = held[:len(held)-len(msoEndif)]
+			out = out[len(msoIf):]
+		}
+		if _, err := w.WriteString(held); err != nil {
+			return err
+		}
+		held = out
+	}
+	if _, err := w.WriteString(held); err != nil {
+		return err
 	}
 
 	if c.RenderOpts != nil {
